@@ -63,6 +63,9 @@ func (f *WithOpenStream) Call(s *slip.Scope, args slip.List, depth int) (result 
 		args = args[1:]
 		for i := range args {
 			result = slip.EvalArg(s2, args, i, d2)
+			if isTransfer(result) {
+				break // a return-from, return or go is passed on to its target
+			}
 		}
 	} else {
 		slip.TypePanic(s, depth, "stream", subArgs[1], "stream")
